@@ -15,6 +15,7 @@ import tempfile
 
 import common
 from common import run_check
+import vmodel
 import vprogs
 import vrun
 
@@ -59,6 +60,22 @@ def cross_process(editions, root, xs=(2,)):
                     fails.append(f)
                 j += 2
     return fails, log
+
+
+def model_partition(editions, log):
+    """correspondence with the Lean model: over the whole history, two (edition, function) pairs have the same real
+    version iff the model gives them the same version (the model digests exactly the tracked closure)."""
+    vm = vmodel.VModel()
+    try:
+        pairs = []
+        for i, (prog, vers) in enumerate(zip(editions, log)):
+            vm.load(prog, order="id" if i % 2 == 0 else "rev")
+            for n in sorted(vers):
+                if n in prog["defs"] and not str(vers[n]).startswith("err:"):
+                    pairs.append(("ed%d:%s" % (i, n), n + "#" + vers[n], n + "#" + vm.ver(n)))
+        return vmodel.partition_mismatches(pairs), len(pairs)
+    finally:
+        vm.close()
 
 
 def event_actions(prev, cur):
@@ -155,6 +172,11 @@ def corpus():
     r1 = json.loads(json.dumps(r0)); r1["defs"]["V1"]["value"] = [2, 1]
     r2 = json.loads(json.dumps(r1)); r2["defs"]["h1"]["lam"] = 2
     out.append([r0, r1, r2])
+    # F17 (was K1): explicit version strings of two dependencies re-split ("1","23" -> "12","3") with both bodies edited
+    k0 = dict(defs={"m1": _fn("memento", [], explicit="1"), "m2": _fn("memento", [], explicit="23"),
+                    "m3": _fn("memento", [["m1", "bare"], ["m2", "bare"]])}, order=["m1", "m2", "m3"])
+    k1 = json.loads(json.dumps(k0)); k1["defs"]["m1"].update(const=2, explicit="12"); k1["defs"]["m2"].update(const=2, explicit="3")
+    out.append([k0, k1])
     return out
 
 
@@ -195,25 +217,28 @@ def main(chk, replay=None):
             logs.append(lg)
         root = tempfile.mkdtemp(prefix="c01_", dir=chk.tmpdir())
         try:
-            fx, _ = cross_process(eds, os.path.join(root, "x"))
+            fx, vlog = cross_process(eds, os.path.join(root, "x"))
             fi = in_process(eds, os.path.join(root, "i"))
         finally:
             shutil.rmtree(root, ignore_errors=True)
-        return eds, logs, fx, fi
+        return eds, logs, fx, fi, model_partition(eds, vlog)
 
     def work_corpus(eds):
         root = tempfile.mkdtemp(prefix="c01c_", dir=chk.tmpdir())
         try:
-            fx, _ = cross_process(eds, os.path.join(root, "x"))
+            fx, vlog = cross_process(eds, os.path.join(root, "x"))
             fi = in_process(eds, os.path.join(root, "i"))
         finally:
             shutil.rmtree(root, ignore_errors=True)
-        return eds, [[["corpus", "-"]]], fx, fi
+        return eds, [[["corpus", "-"]]], fx, fi, model_partition(eds, vlog)
 
     seeds = [rng.randrange(1 << 30) for _ in range(nprog)]
     with concurrent.futures.ThreadPoolExecutor(max_workers=8) as ex:
         results = list(ex.map(work_corpus, corpus())) + list(ex.map(work, seeds))
-        for eds, logs, fx, fi in results:
+        for eds, logs, fx, fi, (mism, npairs) in results:
+            chk.count("model-compared-versions", npairs)
+            for mm in mism[:2]:
+                chk.correspondence_break("version-model:partition:" + mm["kind"], dict(mismatch=mm, editions=eds))
             for delivery, fails in (("cross-process", fx), ("in-process", fi)):
                 chk.case([eds, delivery], nontrivial=len(eds) > 1,
                          sample=dict(delivery=delivery, edits=logs[:3], defs=list(eds[0]["defs"])))
